@@ -1152,6 +1152,12 @@ int htp_connp_req_data(htp_connp_t *connp, const htp_time_t *timestamp, const vo
                 }
             }
 
+            // From here on parsing of this stream has ended (stop or fatal error). Raw data that
+            // has not been sent to the data receiver yet lives in the caller's chunk, which will
+            // be gone when we return: forget the receiver, so that a later finalization (e.g.,
+            // triggered from the other direction) does not hand out a stale pointer.
+            connp->in_data_receiver_hook = NULL;
+
             // Check for the stop signal.
             if (rc == HTP_STOP) {
                 #ifdef HTP_DEBUG
